@@ -11,6 +11,7 @@ pub mod c06;
 pub mod c08;
 pub mod c12;
 pub mod c16;
+pub mod c19;
 
 pub fn dispatch_check(id: &str, tier: Tier, seed: u64) -> i32 {
     match id {
@@ -23,6 +24,7 @@ pub fn dispatch_check(id: &str, tier: Tier, seed: u64) -> i32 {
         "C08" => run_check(&c08::C08, tier, seed),
         "C12" => run_check(&c12::C12, tier, seed),
         "C16" => run_check(&c16::C16, tier, seed),
+        "C19" => run_check(&c19::C19, tier, seed),
         _ => {
             eprintln!("harness error: unknown property {id}");
             2
@@ -41,6 +43,7 @@ pub fn dispatch_replay(id: &str, file: &str) -> i32 {
         "C08" => run_replay(&c08::C08, file),
         "C12" => run_replay(&c12::C12, file),
         "C16" => run_replay(&c16::C16, file),
+        "C19" => run_replay(&c19::C19, file),
         _ => {
             eprintln!("harness error: unknown property {id}");
             2
